@@ -16,9 +16,11 @@ import Mathlib.Algebra.BigOperators.Group.List.Basic
 Proved here: the Cox–de Boor basis the model evaluates (and `eval_on_knots` is compared with) is
 non-negative, locally supported and sums to one at every point of the grid, for every degree — so a
 signal is a convex combination of its coefficients, and bounds on the coefficients (SplineMethod's
-`grid='inf'` rows) bound the signal at EVERY time. Not proved (differentially tested, exact
-arithmetic): the derivative-coefficient formula for general degree, linear precision at the Greville
-points, equality of optimal trajectories between SplineMethod and shooting.
+`grid='inf'` rows) bound the signal at EVERY time. Linear precision at the
+Greville points (a coefficient vector sampled from an affine function at the Greville points IS that
+function) is proved for every degree as well. Not proved (differentially tested, exact arithmetic): the
+derivative-coefficient formula for general degree, equality of optimal trajectories between SplineMethod
+and shooting.
 -/
 set_option linter.unusedSectionVars false
 namespace Rockit.C17
@@ -179,6 +181,104 @@ theorem convex_lower (t : List K) (j : Nat) (x : K) (hs : SpanOK t j x) (d M : N
         have hi' : i < M := by simpa using hi
         exact mul_le_mul_of_nonneg_right (hc i hi') (basis_nonneg t j x hs d i (Or.inl (by omega)))
 
+/-! ### linear precision at the Greville points (Marsden's identity in degree one), every degree -/
+
+/-- sum of the `e` knots `t_{i+1}, …, t_{i+e}` (`e` times the Greville abscissa of basis function `i` of degree `e`) -/
+def gsum (t : List K) (i e : Nat) : K := ∑ r ∈ range e, t.getD (i + 1 + r) 0
+
+theorem gsum_succ (t : List K) (i e : Nat) : gsum t i (e + 1) = gsum t i e + t.getD (i + e + 1) 0 := by
+  unfold gsum
+  rw [sum_range_succ]
+  have : i + 1 + e = i + e + 1 := by omega
+  rw [this]
+
+/-- the sum of the `e+1` knots `t_i, …, t_{i+e}` -/
+theorem gsum_prev (t : List K) (i e : Nat) : ∑ r ∈ range (e + 1), t.getD (i + r) 0 = t.getD i 0 + gsum t i e := by
+  unfold gsum
+  rw [sum_range_succ']
+  simp only [Nat.add_zero]
+  rw [add_comm]
+  congr 1
+  apply sum_congr rfl
+  intro r _
+  have : i + (r + 1) = i + 1 + r := by omega
+  rw [this]
+
+/-- one step of de Boor's algorithm on the Greville sums: the two halves of the recursion recombine to `(x + Σ knots)·N_{i,e}` -/
+theorem greville_step (t : List K) (j : Nat) (x : K) (hs : SpanOK t j x) (e i : Nat) (hlen : j + e + 1 < t.length) :
+    gsum t i (e + 1) * Aterm t j x e i + (t.getD i 0 + gsum t i e) * Bterm t j x e i = (x + gsum t i e) * coxDeBoor t j x e i := by
+  unfold Aterm Bterm
+  by_cases hg : i + e < j ∨ j < i
+  · simp [hg, local_support t j x e i hg]
+  · simp only [hg, if_false]
+    have g1 : j ≤ i + e := by omega
+    have g2 : i ≤ j := by omega
+    have hd := denom_pos t j x hs e i g2 g1 (by omega)
+    rw [gsum_succ]
+    field_simp
+    ring
+
+/-- **`Σ_i (t_{i+1} + … + t_{i+e})·N_{i,e}(x) = e·x`** at every point of a non-empty span, for every degree `e` -/
+theorem greville_sum (t : List K) (j : Nat) (x : K) (hs : SpanOK t j x) (M : Nat) (hM : j < M) :
+    ∀ e, e ≤ j → j + e < t.length → ∑ i ∈ range M, gsum t i e * coxDeBoor t j x e i = (e : K) * x := by
+  intro e
+  induction e with
+  | zero => intro _ _; simp [gsum]
+  | succ e ih =>
+    intro he hlen
+    have hS : ∑ i ∈ range M, gsum t i (e + 1) * coxDeBoor t j x (e + 1) i =
+        ∑ i ∈ range M, gsum t i (e + 1) * Aterm t j x e i + ∑ i ∈ range M, gsum t i (e + 1) * Bterm t j x e (i + 1) := by
+      rw [← sum_add_distrib]
+      exact sum_congr rfl (fun i _ => by rw [cdb_succ, mul_add])
+    -- the second sum, re-indexed: basis function `i+1` carries the knots `t_{i+1} … t_{i+e+1}`, i.e. `t_k + gsum k e` for `k = i+1`
+    have hre : ∀ i, gsum t i (e + 1) = t.getD (i + 1) 0 + gsum t (i + 1) e := by
+      intro i
+      rw [← gsum_prev]
+      unfold gsum
+      apply sum_congr rfl
+      intro r _
+      rfl
+    have hshift : ∑ i ∈ range M, gsum t i (e + 1) * Bterm t j x e (i + 1) =
+        ∑ i ∈ range M, (t.getD i 0 + gsum t i e) * Bterm t j x e i := by
+      have h1 := sum_range_succ' (fun i => (t.getD i 0 + gsum t i e) * Bterm t j x e i) M
+      have h2 := sum_range_succ (fun i => (t.getD i 0 + gsum t i e) * Bterm t j x e i) M
+      have b0 : Bterm t j x e 0 = 0 := by
+        unfold Bterm
+        rw [if_pos (by omega : 0 + e < j ∨ j < 0)]
+      have bM : Bterm t j x e M = 0 := by
+        unfold Bterm
+        rw [if_pos (by omega : M + e < j ∨ j < M)]
+      rw [b0, mul_zero, add_zero] at h1
+      rw [bM, mul_zero, add_zero] at h2
+      rw [← h2, h1]
+      exact sum_congr rfl (fun i _ => by rw [hre])
+    rw [hS, hshift, ← sum_add_distrib]
+    rw [sum_congr rfl (fun i _ => greville_step t j x hs e i (by omega))]
+    simp only [add_mul, sum_add_distrib, ← mul_sum]
+    rw [partition_of_unity t j x hs M hM e (by omega) (by omega), ih (by omega) (by omega)]
+    push_cast
+    ring
+
+/-- **linear precision**: the spline whose coefficients are the Greville abscissae `(t_{i+1}+…+t_{i+d})/d` is the identity, so a
+coefficient vector sampled from an affine function of time at the Greville points reproduces that function at every time -/
+theorem linear_precision (t : List K) (j : Nat) (x : K) (hs : SpanOK t j x) (d M : Nat) (hd : d ≤ j) (hd1 : 1 ≤ d) (hM : j < M)
+    (hlen : j + d < t.length) (a b : K) :
+    ∑ i ∈ range M, (a * (gsum t i d / (d : K)) + b) * coxDeBoor t j x d i = a * x + b := by
+  have hdne : (d : K) ≠ 0 := by
+    have : (0 : K) < (d : K) := by exact_mod_cast hd1
+    exact this.ne'
+  have h1 := greville_sum t j x hs M hM d hd hlen
+  have h0 := partition_of_unity t j x hs M hM d hd hlen
+  calc ∑ i ∈ range M, (a * (gsum t i d / (d : K)) + b) * coxDeBoor t j x d i
+      = a / (d : K) * ∑ i ∈ range M, gsum t i d * coxDeBoor t j x d i + b * ∑ i ∈ range M, coxDeBoor t j x d i := by
+        rw [mul_sum, mul_sum, ← sum_add_distrib]
+        apply sum_congr rfl
+        intro i _
+        field_simp
+    _ = a * x + b := by
+        rw [h1, h0]
+        field_simp
+
 end basis
 
 
@@ -236,6 +336,93 @@ theorem spanIdx_lt (xi : List K) (d : Nat) (x : K) (h : 2 ≤ xi.length) : spanI
   simp only [decide_eq_true_eq] at this
   omega
 
+/-! ### every time of the horizon lies in a non-empty span of the clamped knots: `SpanOK` holds for every valid grid -/
+
+/-- a control grid: at least one interval, strictly increasing node times -/
+structure GridOK (xi : List K) : Prop where
+  two : 2 ≤ xi.length
+  strict : ∀ a b, a < b → b < xi.length → xi.getD a 0 < xi.getD b 0
+
+theorem GridOK.mono {xi : List K} (h : GridOK xi) (a b : Nat) (hab : a ≤ b) (hb : b < xi.length) : xi.getD a 0 ≤ xi.getD b 0 := by
+  rcases Nat.lt_or_eq_of_le hab with h1 | h1
+  · exact (h.strict a b h1 hb).le
+  · subst h1; exact le_refl _
+
+/-- entry `i` of the clamped knot vector is the grid time with the index clamped into the grid -/
+theorem clampedKnots_getD (xi : List K) (d i : Nat) (hx : xi ≠ []) (hi : i < (clampedKnots xi d).length) :
+    (clampedKnots xi d).getD i 0 = xi.getD (min (i - d) (xi.length - 1)) 0 := by
+  have hpos : 0 < xi.length := List.length_pos_iff.mpr hx
+  have hlen : (clampedKnots xi d).length = xi.length + 2 * d := by simp [clampedKnots]; omega
+  unfold clampedKnots
+  simp only [nat_eq, Nat.cast_zero, List.getD_eq_getElem?_getD]
+  by_cases h1 : i < d
+  · rw [List.append_assoc, List.getElem?_append_left (by simpa using h1)]
+    have : min (i - d) (xi.length - 1) = 0 := by omega
+    rw [this]
+    simp [List.getElem?_replicate, h1, List.headD_eq_head?_getD, List.head?_eq_getElem?]
+  · by_cases h2 : i < d + xi.length
+    · rw [List.append_assoc, List.getElem?_append_right (by simpa using (by omega : d ≤ i))]
+      simp only [List.length_replicate]
+      rw [List.getElem?_append_left (by omega)]
+      have : min (i - d) (xi.length - 1) = i - d := by omega
+      rw [this]
+    · rw [List.getElem?_append_right (by simp; omega)]
+      simp only [List.length_append, List.length_replicate]
+      have : min (i - d) (xi.length - 1) = xi.length - 1 := by omega
+      rw [this]
+      have hi2 : i - (d + xi.length) < d := by omega
+      simp [List.getElem?_replicate, hi2, List.getLastD_eq_getLast?, List.getLast?_eq_getElem?]
+
+theorem foldl_last (p : Nat → Prop) [DecidablePred p] (n : Nat) :
+    let r := (List.range n).foldl (fun acc k => if p k then k else acc) 0
+    (r = 0 ∨ p r) ∧ ∀ k, r < k → k < n → ¬ p k := by
+  induction n with
+  | zero => simp
+  | succ n ih =>
+    simp only [List.range_succ, List.foldl_append, List.foldl_cons, List.foldl_nil]
+    by_cases hp : p n
+    · rw [if_pos hp]
+      exact ⟨Or.inr hp, fun k h1 h2 => by omega⟩
+    · rw [if_neg hp]
+      refine ⟨ih.1, fun k h1 h2 => ?_⟩
+      rcases Nat.lt_or_eq_of_le (Nat.lt_succ_iff.mp h2) with h3 | h3
+      · exact ih.2 k h1 h3
+      · subst h3; exact hp
+
+/-- **for every valid grid and every time between its first and last node the span the evaluation picks is non-empty and contains
+the time** — the hypothesis of all the theorems above is met by every grid rockit can build -/
+theorem spanOK_of_grid (xi : List K) (d : Nat) (x : K) (hg : GridOK xi) (hlo : xi.getD 0 0 ≤ x) (hhi : x ≤ xi.getD (xi.length - 1) 0) :
+    SpanOK (clampedKnots xi d) (spanIdx xi d x) x := by
+  have hx : xi ≠ [] := by intro h; have := hg.two; simp [h] at this
+  have h2 := hg.two
+  have hlen : (clampedKnots xi d).length = xi.length + 2 * d := by simp [clampedKnots]; omega
+  have hfold := foldl_last (fun k => xi.getD k 0 ≤ x) (xi.length - 1)
+  have hlt := foldl_idx_lt (fun k => decide (xi.getD k (nat 0) ≤ x)) (xi.length - 1) (by omega)
+  simp only [decide_eq_true_eq, nat_eq, Nat.cast_zero] at hlt
+  set r := (List.range (xi.length - 1)).foldl (fun acc k => if xi.getD k 0 ≤ x then k else acc) 0 with hr
+  have hj : spanIdx xi d x = d + r := by simp [spanIdx, hr]
+  have kj : (clampedKnots xi d).getD (d + r) 0 = xi.getD r 0 := by
+    rw [clampedKnots_getD xi d (d + r) hx (by omega)]
+    congr 1; omega
+  have kj1 : (clampedKnots xi d).getD (d + r + 1) 0 = xi.getD (r + 1) 0 := by
+    rw [clampedKnots_getD xi d (d + r + 1) hx (by omega)]
+    congr 1; omega
+  refine ⟨?_, ?_, ?_, ?_⟩
+  · intro a b hab hb
+    rw [clampedKnots_getD xi d a hx (by omega), clampedKnots_getD xi d b hx hb]
+    exact hg.mono _ _ (by omega) (by omega)
+  · rw [hj, kj, kj1]
+    exact hg.strict r (r + 1) (by omega) (by omega)
+  · rw [hj, kj]
+    rcases hfold.1 with h0 | h0
+    · rw [h0]; exact hlo
+    · exact h0
+  · rw [hj, kj1]
+    by_cases hlast : r + 1 = xi.length - 1
+    · rw [hlast]; exact hhi
+    · have := hfold.2 (r + 1) (by omega) (by omega)
+      exact (not_le.mp this).le
+
 /-- **bounds on the coefficients bound the signal** — for the executable spline evaluation, at every
 point of the grid, every degree: what makes SplineMethod's `grid='inf'` (bounds imposed on the
 coefficients) sufficient for all times -/
@@ -260,6 +447,57 @@ theorem signal_ge_of_coeffs_ge (xi : List K) (d : Nat) (c : List K) (x lb : K) (
     have hi' : i < c.length := by omega
     rw [List.getD_eq_getElem?_getD, List.getElem?_eq_getElem hi']
     exact h _ (List.getElem_mem hi')
+
+theorem foldl_range_add2 (f : Nat → K) (m : Nat) (z : K) :
+    (List.range m).foldl (fun acc i => acc + f i) z = z + ∑ i ∈ range m, f i := by
+  induction m with
+  | zero => simp
+  | succ m ih => rw [List.range_succ, List.foldl_append, ih, sum_range_succ]; simp [add_assoc]
+
+/-- the model's Greville points are the knot averages the linear-precision theorem is about -/
+theorem greville_getD (xi : List K) (d i : Nat) (hi : i < nBasis xi (d + 1)) :
+    (greville xi (d + 1)).getD i 0 = gsum (clampedKnots xi (d + 1)) i (d + 1) / ((d + 1 : Nat) : K) := by
+  unfold greville
+  simp only [List.getD_eq_getElem?_getD, List.getElem?_map, List.getElem?_range hi, Option.map_some, Option.getD_some, nat_eq, Nat.cast_zero]
+  rw [foldl_range_add2, zero_add]
+  rfl
+
+/-- **a guess that is an affine function of time, sampled at the Greville points, is reproduced at every time** — the executable
+spline evaluation, every degree `≥ 1` (what SplineMethod's `set_initial` relies on; the C10/C17 checks compare rockit with it) -/
+theorem signal_affine_of_greville (xi : List K) (d : Nat) (a b x : K) (hxi : 2 ≤ xi.length)
+    (hs : SpanOK (clampedKnots xi (d + 1)) (spanIdx xi (d + 1) x) x) :
+    splineEval xi (d + 1) ((greville xi (d + 1)).map (fun g => a * g + b)) x = a * x + b := by
+  have hc : ((greville xi (d + 1)).map (fun g => a * g + b)).length = nBasis xi (d + 1) := by simp [greville]
+  rw [splineEval_eq_sum xi (d + 1) _ x hc]
+  have hlen : spanIdx xi (d + 1) x + (d + 1) < (clampedKnots xi (d + 1)).length := by
+    have := spanIdx_lt xi (d + 1) x hxi
+    simp [clampedKnots, nBasis] at this ⊢
+    omega
+  rw [← linear_precision (clampedKnots xi (d + 1)) (spanIdx xi (d + 1) x) x hs (d + 1) (nBasis xi (d + 1))
+    (spanIdx_ge xi (d + 1) x) (by omega) (spanIdx_lt xi (d + 1) x hxi) hlen a b]
+  apply sum_congr rfl
+  intro i hi
+  have hi' : i < nBasis xi (d + 1) := by simpa using hi
+  congr 1
+  have hg : i < (greville xi (d + 1)).length := by simpa [greville] using hi'
+  rw [List.getD_eq_getElem?_getD, List.getElem?_map, List.getElem?_eq_getElem hg]
+  simp only [Option.map_some, Option.getD_some]
+  have := greville_getD xi d i hi'
+  rw [List.getD_eq_getElem?_getD, List.getElem?_eq_getElem hg] at this
+  simp only [Option.getD_some] at this
+  rw [this]
+
+/-- the same two statements with the span hypothesis DISCHARGED: any strictly increasing grid, any time of the horizon -/
+theorem signal_bounds_on_grid (xi : List K) (d : Nat) (c : List K) (x lb ub : K) (hg : GridOK xi)
+    (hlo : xi.getD 0 0 ≤ x) (hhi : x ≤ xi.getD (xi.length - 1) 0) (hc : c.length = nBasis xi d)
+    (h : ∀ v ∈ c, lb ≤ v ∧ v ≤ ub) : lb ≤ splineEval xi d c x ∧ splineEval xi d c x ≤ ub :=
+  ⟨signal_ge_of_coeffs_ge xi d c x lb hg.two hc (spanOK_of_grid xi d x hg hlo hhi) (fun v hv => (h v hv).1),
+   signal_le_of_coeffs_le xi d c x ub hg.two hc (spanOK_of_grid xi d x hg hlo hhi) (fun v hv => (h v hv).2)⟩
+
+theorem affine_guess_reproduced (xi : List K) (d : Nat) (a b x : K) (hg : GridOK xi)
+    (hlo : xi.getD 0 0 ≤ x) (hhi : x ≤ xi.getD (xi.length - 1) 0) :
+    splineEval xi (d + 1) ((greville xi (d + 1)).map (fun g => a * g + b)) x = a * x + b :=
+  signal_affine_of_greville xi d a b x hg.two (spanOK_of_grid xi (d + 1) x hg hlo hhi)
 
 end executable
 
@@ -296,5 +534,13 @@ example : SpanOK ([0, 0, 0, 1, 3, 4, 4, 4] : List ℚ) 3 2 where
   strict := by norm_num [List.getD]
   lo := by norm_num [List.getD]
   hi := by norm_num [List.getD]
+
+/-- the grid `0,1,3,4` is a valid grid -/
+example : GridOK ([0, 1, 3, 4] : List ℚ) where
+  two := by simp
+  strict := by
+    intro a b hab hb
+    simp only [List.length_cons, List.length_nil] at hb
+    interval_cases b <;> interval_cases a <;> norm_num [List.getD]
 
 end Rockit.C17
